@@ -82,6 +82,35 @@ def chk_checksummed(s):
     return []
 
 
+FOREIGN = "0OIl -_+/=\u00e9"
+
+
+def crafted(c, d, pos, plen):
+    """search payloads of length plen until the reference encoding has the wanted digit at pos, then plant c there"""
+    ctr = 0
+    while True:
+        payload = b"\x00" + enc.sha256(b"crafted" + ctr.to_bytes(8, "big"))[:plen - 1]
+        raw = payload + enc.hash256(payload)[:4]
+        if d == "skip":
+            s = enc.b58encode(raw)
+            return s[:pos] + c + s[pos:]
+        if d >= 0:
+            s = enc.b58encode(raw)
+            if pos < len(s) and s[pos] == A[d] and pos >= len(s) - len(s.lstrip("1")):
+                return s[:pos] + c + s[pos + 1:]
+        else:
+            # digit -1 at weight j: number + 58^j must have digit 0 ('1') there
+            zeros = len(raw) - len(raw.lstrip(b"\x00"))
+            t = int.from_bytes(raw, "big")
+            body = enc.b58encode(raw)[zeros:]
+            j = len(body) - 1 - (pos - zeros)
+            if 0 <= j < len(body) - 1:
+                u = enc.b58encode((t + 58 ** j).to_bytes(len(raw) - zeros, "big"))
+                if len(u) == len(body) and u[len(u) - 1 - j] == "1":
+                    return "1" * zeros + u[:len(u) - 1 - j] + c + u[len(u) - j:]
+        ctr += 1
+
+
 def mutants_at(s, pos):
     out = []
     if pos < len(s):
@@ -136,7 +165,8 @@ def execute(case):
         for s in _strings(case["prefix"], case["len"] - len(case["prefix"])):
             acc(chk_str(s), {"k": "str", "s": s})
     elif k == "chk":
-        acc(chk_checksummed(case["s"]), case)
+        for rep in range(case.get("repeat", 1)):
+            acc(chk_checksummed(case["s"]), case)
     elif k == "valid_block":
         pre = bytes.fromhex(case["prefix"])
         rest = case["len"] - len(pre)
@@ -152,6 +182,13 @@ def execute(case):
         s = enc.b58check_encode(bytes.fromhex(case["payload"]))
         for m in mutants_at(s, case["pos"]):
             acc(chk_checksummed(m), {"k": "chk", "s": m})
+    elif k == "mapped":
+        # a string that WOULD carry a valid checksum if the foreign character c were silently read as digit d
+        # (d = -1: str.find() result; "skip": character ignored). Presented three times in one process, so a
+        # decoder that only rejects the first sighting of a character is caught too. Must be refused every time.
+        s = crafted(case["c"], case["d"], case["pos"], case["len"])
+        for rep in range(3):
+            acc(chk_checksummed(s), {"k": "chk", "s": s, "repeat": 3})
     elif k == "prefix1":
         s = enc.b58check_encode(bytes.fromhex(case["payload"]))
         for j in (1, 2, 3):
@@ -206,6 +243,10 @@ def run(ctx):
         cases.append({"k": "prefix1", "payload": pl.hex()})
         cases += [{"k": "mut_block", "payload": pl.hex(), "pos": i} for i in range(len(s) + 1)]
     ctx.product("single-edit-mutants", cases, execute, chunk=8)
+    # 6. hypothetical "foreign character read as digit d" decoders: every foreign char x every digit -1..57 and "skip"
+    cases = [{"k": "mapped", "c": c, "d": d, "pos": pos, "len": 21}
+             for c in FOREIGN for d in ([-1, "skip"] + list(range(58))) for pos in (5, 20)]
+    ctx.product("foreign-char-read-as-digit", cases, execute, chunk=16)
     # strings shorter than a checksum / empty / only look-alikes
     cases = [{"k": "chk", "s": s} for s in ["", "1", "11", "111", "1111", "11111", "0", "O", "I", "l", " ", "3yQ", "3yQ "]]
     ctx.product("short-and-foreign", cases, execute, parallel=False)
